@@ -32,7 +32,7 @@ CONFIGS = {
         dict(name="mixed", MaxItems=6, MaxDepth=3, Reps="{2}", FVariants='{"plain", "arrow", "lineabove"}', SVariants='{"plain"}', CVariants='{"try"}', Allowed='{"F","K","C","E","X","S","R"}', layouts=[2]),
         dict(name="wrapped", MaxItems=8, MaxDepth=3, Reps="{1}", FVariants='{"plain", "prefix"}', SVariants='{"plain"}', CVariants='{"if"}', Allowed='{"F","K","W","X","S"}', layouts=[0]),
         # a call-wrapped class inside a method of a call-wrapped class: the nested header search two levels deep
-        dict(name="wrapped2", MaxItems=10, MaxDepth=4, Reps="{1}", FVariants='{"plain"}', SVariants='{"plain"}', CVariants='{"if"}', Allowed='{"F","K","W","X","S"}', layouts=[0], only_wrapped=2),
+        dict(name="wrapped2", MaxItems=11, MaxDepth=4, Reps="{1, 6}", FVariants='{"plain"}', SVariants='{"plain"}', CVariants='{"if"}', Allowed='{"F","K","W","X","S"}', layouts=[0], only_wrapped=2),
         dict(name="thresholds", MaxItems=4, MaxDepth=2, Reps="{1, 13, 14, 15, 16, 28, 29, 30, 31, 58, 59, 60, 61, 75}", FVariants='{"plain"}', SVariants='{"plain"}', CVariants='{"if"}', Allowed='{"F","X","S"}', layouts=[0]),
     ],
     "thorough": [
